@@ -504,7 +504,19 @@ func (dv *driver) setup(se *scanEngine, x *Exec) {
 		if !ok || bo.Op.String() != "-" {
 			return
 		}
-		ld, ok := bo.Y.(*ssa.UnOp)
+		y := bo.Y
+		for {
+			if cv, isC := y.(*ssa.Convert); isC {
+				y = cv.X
+				continue
+			}
+			if ct, isC := y.(*ssa.ChangeType); isC {
+				y = ct.X
+				continue
+			}
+			break
+		}
+		ld, ok := y.(*ssa.UnOp)
 		if !ok {
 			return
 		}
